@@ -598,6 +598,7 @@ class Interp:
         except ContinueEx:
             pass
         after_first_env = {n: env.get(n) for n in assigned}
+        list_len_after_first = {oid: (len(lo.items) if lo.items is not None else None) for oid, (lo, _b) in list_before.items()}
         mutated = [o for o, t in snap_terms_before.items() if o.term is not t and o.term != t]
         after_first_terms = {o: o.term for o in mutated}
         info["first"] = {"env": after_first_env, "terms": after_first_terms, "effects": self.effects[ne0:], "broke": broke}
@@ -646,6 +647,21 @@ class Interp:
             gen_broke = True
         except ContinueEx:
             pass
+        # lists that grow in the loop body: after a loop of unknown trip count the list is [elem(i) for i in iter]
+        # when it was empty before and every iteration appends exactly one item; otherwise its contents are unknown
+        for oid, (lo, before) in list_before.items():
+            if before is None or lo.items is None:
+                continue
+            n0, n1, n2 = len(before), list_len_after_first.get(oid), len(lo.items)
+            if n1 is None or (n1 == n0 and n2 == n0):
+                continue
+            if n0 == 0 and n1 == 1 and n2 == 2 and not gen_broke:
+                lo.elem = lo.items[1]
+                lo.comp_node = st
+                lo.comp_iter = _count_term(it)
+            else:
+                lo.elem = None
+            lo.items = None
         info["generic"] = {"env": {n: env.get(n) for n in assigned}, "terms": {o: o.term for o in mutated},
                            "effects": self.effects[ne1:], "broke": gen_broke}
         info["carried"] = carried_syms
